@@ -223,7 +223,7 @@ def c01(tier, seed):
     book_gen(ck, "gen_split_api", Ops=["create", "place", "cancel", "event", "settime"], Dts=[0, 1], Tick=3, NLevels=2,
              Prices=[9, 12], Vols=[1, 2] if q else [1, 2, 3], Kinds=["L", "M"], MaxOrders=2 if q else 3, MaxOps=4 if q else 5,
              need=("has_trade", "unplaced_order"), timeout=300 if q else 1500)
-    cross(ck, q, "ties", "ties_deep", "split_modify", "big_volumes", "top_price", "big_clock", "long_queue")
+    cross(ck, q, "ties", "ties_deep", "split_modify", "big_volumes", "top_price", "big_clock", "long_queue", "off_modify", "reload_resettv", "env_overflow", "coarse_grid")
     # long random histories over wide alphabets, recorded from the real code and validated by TLC
     ck.traces_stage("rand", "record_book", {"discipline": True}, files=8 if q else 64, runs=2 if q else 4, ops=300)
     # the same without the clock discipline: half of the queue insertions tie
@@ -267,7 +267,7 @@ def c02(tier, seed):
              MaxOrders=3, MaxOps=3 if q else 4, need=("two_sided", "has_trade"), timeout=300 if q else 1500)
     book_gen(ck, "gen_views_reload", cfg=GEN, Ops=["cap", "cancel", "reload"], NLevels=1, Prices=[10, 11], Vols=[1, 3],
              MaxOrders=3, MaxOps=4 if q else 5, need=("two_sided", "op_reload"), timeout=300 if q else 1500)
-    cross(ck, q, "ties_deep", "ties_modify", "split_modify", "big_volumes", "coarse_grid")
+    cross(ck, q, "ties_deep", "ties_modify", "split_modify", "big_volumes", "coarse_grid", "ties", "off_modify", "reload_resettv", "top_price", "big_clock", "long_queue", "env_overflow")
     # views of books that hold orders at prices off the tick grid.  Such orders exist (modify_order accepts any price: known
     # finding F3 of C12), and C02 speaks of every moment of every book: levels are the tick multiples counted from the touch, an
     # order elsewhere belongs to no level.  The specification runs with its named deviation FollowF3 = TRUE (BookOps.tla), i.e.
@@ -299,7 +299,7 @@ def c03(tier, seed):
     book_gen(ck, "gen_ledger", cfg=GEN, Ops=["cap", "cancel", "modify", "resettv"], Prices=[10, 11], Vols=[1, 3],
              ModPrices=[-1, 10, 11], ModVols=["smaller", "larger"], MaxOrders=3, MaxOps=4 if q else 5,
              need=("has_trade", "multi_trade", "op_resettv", "op_modify"), timeout=300 if q else 1500)
-    cross(ck, q, "reload_resettv", "ties", "off_modify", "big_volumes", "big_clock", "long_queue", "env_overflow")
+    cross(ck, q, "reload_resettv", "ties", "off_modify", "big_volumes", "big_clock", "long_queue", "env_overflow", "ties_deep", "split_modify", "top_price", "coarse_grid")
     prof = {"discipline": True, "audit_every": 10, "w": {"toggle": 0.5, "resettv": 1.5, "modify": 5, "reload": 0.5}}
     ck.traces_stage("rand_ledger", "record_book", prof, files=8 if q else 64, runs=2 if q else 4, ops=300)
     # the ledger of a book that is driven by an environment: partial fills and price-only / volume-only modifications of the same
@@ -337,7 +337,7 @@ def c04(tier, seed):
     book_gen(ck, "gen_requests_off", cfg=GEN, Ops=["cap", "place", "cancel", "modify", "event", "enable"], Trading0=False,
              Prices=[10], Vols=[1], ModPrices=[-1, 10], ModVols=["none", "equal", "larger"], MaxOrders=2, MaxOps=4 if q else 5,
              need=("rejected_order",), timeout=300 if q else 1500)
-    cross(ck, q, "ties", "ties_modify", "split_modify", "top_price", "big_clock", "env_overflow")
+    cross(ck, q, "ties", "ties_modify", "split_modify", "top_price", "big_clock", "env_overflow", "ties_deep", "off_modify", "reload_resettv", "big_volumes", "long_queue", "coarse_grid")
     # the same lifecycle through a two-asset market (arrival and end times under the shared clock, set_time between calls)
     mkt_gen(ck, "gen_market_lifecycle", Ticks=(1, 1), Ops=["cap", "create", "place", "cancel", "settime"], Kinds=["L", "M"], Prices=[10], Vols=[1], MaxOrders=2,
             MaxOps=4, need=("ops_on_two_assets", "has_trade"), timeout=300 if q else 1500)
@@ -403,7 +403,7 @@ def c06(tier, seed):
              timeout=300 if q else 1500)
     book_gen(ck, "gen_modify_cancel_mkt", Ops=["cap", "modify", "cancel"], Prices=[10, 11], ModPrices=[-1, 10, 11],
              ModVols=["smaller", "larger"] if q else MODV, MaxOrders=3 if q else 4, MaxOps=4 if q else 5, need=("op_modify", "cancelled_order"), timeout=300 if q else 1500)
-    cross(ck, q, "ties_modify", "off_modify", "split_modify", "big_volumes", "top_price")
+    cross(ck, q, "ties_modify", "off_modify", "split_modify", "big_volumes", "top_price", "ties", "ties_deep", "reload_resettv", "big_clock", "long_queue", "coarse_grid", "env_overflow")
     # modification through the environments: a queued modify instruction is applied when the step processes it, to the order
     # as it is THEN ("omitted fields keep their current values" - current at application, e.g. after a partial fill earlier
     # in the same step); partial fills and price-only / volume-only modifies in one batch, every schedule
@@ -482,7 +482,7 @@ def c12(tier, seed):
     # ... and ON the grid of tick 3 (3 divides 2^32 - 1): such a creation is accepted, on both sides (so is price 0)
     book_gen(ck, "gen_create_max_tick3", cfg=GEN, Ops=["cap", "create", "place"], Tick=3, Prices=[0, 9, MAXPRICE], Vols=[1], MaxOrders=3,
              MaxOps=3 if q else 4, need=("has_trade",), timeout=300)
-    cross(ck, q, "coarse_grid")
+    cross(ck, q, "coarse_grid", "ties", "ties_modify", "off_modify", "split_modify", "top_price", "big_volumes")
     # the ends of the price range: the lowest grid prices (levels reaching price 0, tick 2, four published levels) and
     # the grid points just below the maximum price (high-price regime, DESIGN.md 3.6): the per-level data accounts for all resting volume
     book_gen(ck, "gen_levels_low", cfg=GEN, Ops=["cap", "cancel"], Tick=2, NLevels=4, Prices=[0, 2, 6], Vols=[1, 2], Kinds=["L"],
@@ -533,7 +533,7 @@ def c13(tier, seed):
     # market and environment level
     mkt_gen(ck, "gen_market_toggle", Ticks=(1, 1), Ops=["cap", "modify", "disable", "enable"], Kinds=["L", "M"], Prices=[10, 11], Vols=[1],
             ModPrices=[10, 11], ModVolsAbs=[-1], MaxOrders=2, MaxOps=4, need=("trading_toggled", "has_trade"), timeout=300 if q else 1500)
-    cross(ck, q, "market_toggle_reload", "off_modify")
+    cross(ck, q, "market_toggle_reload", "off_modify", "ties", "split_modify", "top_price", "big_volumes", "big_clock")
     # snapshots of books with trading off / on, then the switch
     book_gen(ck, "gen_toggle_reload", Ops=["cap", "disable", "enable", "reload"], Prices=[10], Vols=[1], Kinds=["L", "M"], MaxOrders=2,
              MaxOps=4 if q else 5, need=("op_reload", "trading_off", "has_trade", "rejected_order"), timeout=300 if q else 1500)
@@ -1244,6 +1244,11 @@ def c19(tier, seed):
     py_env_gen(ck, "py_env_layout_deep", mode="env", seeds=2 if q else 4, Ticks=(2,), StepSize=6, Ops=["new", "modify", "step"], Kinds=["L"] if q else ["L", "M"],
                Prices=[10, 14, 28], Vols=[2] if q else [2, 5], Sides=["B", "A"], ModPrices=[-1, 12], ModVolsAbs=[-1, 1], MaxSubmits=3, MaxBatch=3,
                MaxSteps=2 if q else 3, MaxOrders=3, need=("asymmetric", "has_modify", "has_trade"), timeout=400 if q else 1800)
+    # the lower end of the price range: every resting bid at the limit price 0, which is also what an empty bid side shows as its
+    # touch price - the per-level cells and series must still hold that level's volume and order count (both environments)
+    low = dict(common, Prices=[0, 2], MaxSubmits=3, MaxOrders=3)
+    py_env_gen(ck, "py_env_layout_low", mode="env", seeds=2, need=("asymmetric", "has_trade"), timeout=400 if q else 1800, **low)
+    py_env_gen(ck, "py_numpy_layout_low", mode="numpy", seeds=2, need=("asymmetric", "has_trade"), timeout=400 if q else 1800, **low)
     # data-frame helpers on books with partially filled, cancelled, rejected and modified orders
     py_book_gen(ck, "py_book_frames", Ops=["cap", "cancel", "modify", "disable"], Prices=[10, 11], Vols=[1, 3], ModPrices=[-1],
                 ModVols=["smaller", "larger"], MaxOrders=3, MaxOps=3 if q else 4, need=("has_trade", "op_modify", "op_cancel"),
